@@ -206,9 +206,7 @@ def check_print_read(rep, fx):
     read = set()
     for fn, bb, t in readers:
         f = fx.fns[fn]
-        for x in expr_walk(f.expr_of_operand(t['args'][1])):
-            if isinstance(x, tuple) and x[0] == 'const' and isinstance(x[1], dict) and isinstance(x[1].get('v'), int):
-                read.add(x[1]['v'])
+        read |= _radix_consts(fx, f, f.expr_of_operand(t['args'][1]))
         vetted = any('.tmp' in expr_str(e, -30) for (_, e, side) in edge_guards(f, bb))
         rep.add('C16.R3', 'C16.R3:integer-parser-sign-vetted:%s' % fn, vetted,
                 'a test of the collected digits decides whether from_str_radix sees them' if vetted else
@@ -241,6 +239,28 @@ def check_print_read(rep, fx):
             'radixes printed for integers %s, radixes read %s' % (sorted(printed), sorted(read)) if not missing else
             'integers are printed in radix %s (`10 ^oct print` writes 0o12) but the lexer has no literal of that radix (it reads %s): the text '
             'does not read back' % (missing, sorted(read)), 'lex::Lex::next', None)
+
+
+def _radix_consts(fx, f, e, depth=0):
+    """the integer constants a radix argument can be: in the expression itself, in what the callers pass when it is a parameter
+    (`parse_int_digits(radix)`), in what a local helper returns when it is computed by one (`radix_of_prefix(c)`)"""
+    out = set()
+    for x in expr_walk(e):
+        if not isinstance(x, tuple) or not x:
+            continue
+        if x[0] == 'const' and isinstance(x[1], dict) and isinstance(x[1].get('v'), int):
+            out.add(x[1]['v'])
+        elif x[0] == 'arg' and depth < 2:
+            for c in fx.callers().get(f.name, ()):
+                g = fx.fns.get(c)
+                if g is None:
+                    continue
+                for _, t in g.calls():
+                    if callee_of(t) == f.name and x[1] - 1 < len(t['args']):
+                        out |= _radix_consts(fx, g, g.expr_of_operand(t['args'][x[1] - 1]), depth + 1)
+        elif x[0] == 'call' and x[1] in fx.fns and depth < 2 and '{closure' not in x[1]:
+            out |= _radix_consts(fx, fx.fns[x[1]], fx.fns[x[1]].expr_of_local(0), depth + 1)
+    return out
 
 
 def run(rep, facts, tier):
@@ -322,6 +342,10 @@ def run(rep, facts, tier):
         f = fx.fns[fn]
         if f.j['span'].startswith('src/lex.rs') is False:
             continue
+        # `let skipped = matches!(tok, ..); if !skipped { return tok }`: the flag stands for the test that computed it
+        from .. import inline as _inl
+        if f.nblocks <= 40:          # (small functions only: threading the scanner itself multiplies its loops)
+            f = _inl.thread_fn(f)
         loops = natural_loops(f)
         # merge loops with the same header
         by_h = {}
